@@ -1020,6 +1020,32 @@ func c13Copy(c *Ctx, ix *PkgIndex, xc xformCopy) []string {
 						}
 						_ = back
 					}
+					// … and the other way round: wherever the remembered group changes, the remembered key changes with it
+					for ga := range grpAs {
+						if keyAs[ga] {
+							continue
+						}
+						if d, _ := g.DominatedByNodes(ga, keyAs); d {
+							okPrev := true
+							for ka := range keyAs {
+								s2, _ := g.Reach([]*GNode{ka}, func(y *GNode) bool { return y == ga }, nil)
+								for y := range s2 {
+									if isLoopHead(y) || y == g.Exit {
+										okPrev = false
+									}
+								}
+							}
+							if okPrev {
+								continue
+							}
+						}
+						seen, par := g.Reach([]*GNode{ga}, func(y *GNode) bool { return keyAs[y] }, nil)
+						for y := range seen {
+							if isLoopHead(y) || y == g.Exit {
+								stale = "the remembered group " + tv.Name() + " is updated without the remembered key " + kept.Name() + " (" + g.pathLines(par, y) + "): the next item with the old key is appended to the new group"
+							}
+						}
+					}
 				}
 				if nApp > 0 {
 					c.Check(stale == "", "R4", sp+"|"+fname+"|items are appended to the group of their own (resource, scope)", at(ix.M, fn.Pos()), itoa(nApp)+" item append(s), each through this iteration's group",
